@@ -22,6 +22,7 @@ class Builder:
         self.tree = ast.parse(inspect.getsource(module))
         self.classes = {n.name: n for n in self.tree.body if isinstance(n, ast.ClassDef)}
         self._load_cache = {}
+        self._resp_cache = {}
 
     # ---- values -------------------------------------------------------
     def resolve(self, node):
@@ -140,7 +141,10 @@ class Builder:
         return out.get(), vals
 
     # ---- response values from the client class ---------------------------
-    def response_value(self, server_class_name, method_name, kind, fields):
+    def response_exprs(self, server_class_name, method_name):
+        """{response variable / field: ast of its extraction in the generated *client* method}"""
+        key = (server_class_name, method_name)
+        if key in self._resp_cache: return self._resp_cache[key]
         cname = server_class_name.replace("Server", "Client")
         cls = self.classes.get(cname)
         if cls is None: raise Unbuildable("no client class " + cname)
@@ -154,6 +158,11 @@ class Builder:
             if seen_in and isinstance(st, ast.Assign) and isinstance(st.value, ast.Call) and self.is_stream_func(st.value.func):
                 tgt = st.targets[0]
                 exprs[tgt.attr if isinstance(tgt, ast.Attribute) else tgt.id] = st.value
+        self._resp_cache[key] = exprs
+        return exprs
+
+    def response_value(self, server_class_name, method_name, kind, fields):
+        exprs = self.response_exprs(server_class_name, method_name)
         if kind == "n": return None
         if kind in ("s", "o"):
             if len(exprs) != 1: raise Unbuildable("client has %d response variables" % len(exprs))
@@ -163,3 +172,16 @@ class Builder:
             if f not in exprs: raise Unbuildable("client lacks field " + f)
             setattr(obj, f, self.value(exprs[f]))
         return obj
+
+    def encodes(self, server_class_name, method_name, kind, fields, value, settings):
+        """does the well-typed result `value` encode (with the real StreamOut) under these settings?
+        (used only to discard inputs whose uncorrupted form already fails, e.g. a required variant that is None)"""
+        exprs = self.response_exprs(server_class_name, method_name)
+        out = streams.StreamOut(settings)
+        try:
+            if kind in ("s", "o"): self.encode(out, next(iter(exprs.values())), value)
+            else:
+                for f in fields: self.encode(out, exprs[f], getattr(value, f))
+        except Exception:
+            return False
+        return True
